@@ -718,6 +718,8 @@ class Fxp():
 
                 if n_frac is not None and n_frac == 0:
                     vdtype = int
+                elif raw:
+                    vdtype = None   # raw values are integers: a float type would drop their low bits beyond 2**53
                 else:
                     vdtype = float
 
